@@ -250,6 +250,24 @@ def check_series (c):
     observe.solve (m2)
     w2 = 2 * exact_of (loads [0], m2.f) [0]
     j.judge ('series.twice', abs ((complex (m2.sources [0].impedance) - z0) - w2) / (abs (z0) + abs (w2)), 1e-9 * max (cond, 1.0), 'one load registered twice on the feed pulse does not act as twice the load')
+    # ... and two elements of equal value (two objects, like the two traps of a trap dipole) are two elements: on the
+    # feed pulse twice the load, one of them on another pulse the same as a single object attached to both
+    m3 = gen.build (spec)
+    m3.register_load (load_object (loads [0]), idx)
+    m3.register_load (load_object (loads [0]), idx)
+    observe.solve (m3)
+    j.judge ('series.equal-values', abs ((complex (m3.sources [0].impedance) - z0) - w2) / (abs (z0) + abs (w2)), 1e-9 * max (cond, 1.0), 'two load objects of equal value on the feed pulse do not act as twice the load', key = 'series-equal-values')
+    if len (m0.pulses) >= 3:
+        other = (idx + 1 + int (rng.integers (0, len (m0.pulses) - 1))) % len (m0.pulses)
+        m4, m5 = gen.build (spec), gen.build (spec)
+        m4.register_load (load_object (loads [0]), idx)
+        m4.register_load (load_object (loads [0]), other)
+        l5 = load_object (loads [0])
+        m5.register_load (l5, idx)
+        m5.register_load (l5, other)
+        observe.solve (m4); observe.solve (m5)
+        z4, z5 = complex (m4.sources [0].impedance), complex (m5.sources [0].impedance)
+        j.judge ('series.equal-values', abs (z4 - z5) / abs (z5), 1e-9 * max (cond, 1.0), 'two load objects of equal value on pulses %d and %d: feed impedance %r, one object attached to both pulses %r' % (idx + 1, other + 1, z4, z5), key = 'series-equal-values')
     # the loaded object solved again and again at the same frequency (other source voltages each time, as in a study
     # of drive levels): the loads stay what they are
     v0 = complex (m1.sources [0].voltage)
